@@ -13,6 +13,7 @@ AsSet(x) == {x[i] : i \in DOMAIN x}
 StateMatches(e) ==
   /\ AsSet(e.st.reg) = RegProj(reg')
   /\ AsSet(e.st.tmo) = TmoProj(tmo')
+  /\ AsSet(e.st.idx) = idx'
 ArgsMatch(e, o) ==
   /\ o.a = e.a
   /\ ("p" \in DOMAIN o) => o.p = e.p
@@ -26,7 +27,7 @@ ArgsMatch(e, o) ==
 TraceInit == Init /\ l = 1
 TraceReset == /\ l <= Len(TraceLog) /\ TraceLog[l].a = "Reset"
               /\ reg' = [k \in Keys |-> None] /\ tmo' = [tk \in TKeys |-> None]
-              /\ swept' = TRUE /\ obs' = [a |-> "Init"] /\ l' = l + 1
+              /\ swept' = TRUE /\ idx' = {} /\ obs' = [a |-> "Init"] /\ l' = l + 1
 TraceStep == /\ l <= Len(TraceLog) /\ TraceLog[l].a # "Reset"
              /\ l' = l + 1
              /\ LET e == TraceLog[l] IN
